@@ -440,6 +440,7 @@ impl<G: Getter<Quantity, E> + ?Sized, E: Copy + Debug> Updatable<E> for Derivati
         let prev_output = match self.prev_output {
             Some(some) => some,
             None => {
+                self.value = Ok(None);
                 self.prev_output = Some(output);
                 return Ok(());
             }
@@ -496,6 +497,7 @@ impl<G: Getter<Quantity, E> + ?Sized, E: Copy + Debug> Updatable<E> for Integral
         let prev_output = match self.prev_output {
             Some(some) => some,
             None => {
+                self.value = Ok(None);
                 self.prev_output = Some(output);
                 return Ok(());
             }
